@@ -310,14 +310,41 @@ func (s *sys) count(ev []uint64, obs []uint64) {
 	}
 }
 
+// corpusMotifs: the corpus histories of the model being run, used as PREFIXES of a share of the random histories (a
+// random cut of a random corpus history is replayed first, then generation continues at random from the situation it
+// reached): the corner cases that were worth writing down are then also explored in their neighbourhood.
+var corpusMotifs []hist.H
+
 func runRandom(t *testing.T, w *hist.W, rw bool, h int) {
 	r := hist.Rng(h)
 	synctest.Test(t, func(t *testing.T) {
+		var prefix [][]uint64
+		if len(corpusMotifs) > 0 && r.IntN(6) == 0 {
+			m := corpusMotifs[r.IntN(len(corpusMotifs))]
+			if len(m.Evs) > 0 {
+				prefix = m.Evs[:1+r.IntN(len(m.Evs))]
+			}
+		}
 		s := newSys(w, rw)
 		defer s.teardown()
 		w.Begin(fmt.Sprintf("r%d", h), nil)
+		for _, ev := range prefix {
+			ev = append([]uint64{}, ev...)
+			obs, ok := s.exec(ev)
+			if !ok {
+				break
+			}
+			s.count(ev, obs)
+			w.Step(ev, obs)
+		}
+		if prefix != nil {
+			w.Count("random_with_corpus_prefix", 1)
+		}
 		steps := 10 + r.IntN(50)
 		maxActs := 4 + r.IntN(8)
+		if prefix != nil {
+			maxActs += len(s.c.Acts)
+		}
 		for k := 0; k < steps; k++ {
 			ev := s.gen(r, maxActs)
 			if ev == nil {
@@ -368,7 +395,8 @@ func run(t *testing.T, model string, rw bool) {
 		}
 		return
 	}
-	for _, h := range hist.LoadCorpus(*hist.Corpus) {
+	corpusMotifs = hist.LoadCorpus(*hist.Corpus)
+	for _, h := range corpusMotifs {
 		runFixed(t, w, rw, h.ID, h.Evs)
 		w.Count("corpus", 1)
 	}
